@@ -203,3 +203,16 @@ def call_lib_nograd(fn, *a, **k):
     import torch
     with torch.no_grad():
         return call_lib(fn, *a, **k)
+
+
+def call_lib_eval(fn, *a, **k):
+    """the same call with the module switched to evaluation mode (`module.eval()`, the usual way to run
+    inference): these transforms have no train-time behaviour, so results must not depend on it"""
+    was = getattr(fn, 'training', None)
+    if was is None:
+        return call_lib(fn, *a, **k)
+    fn.eval()
+    try:
+        return call_lib(fn, *a, **k)
+    finally:
+        fn.train(was)
